@@ -60,3 +60,55 @@ register(Contract(
            1: Loop(index="idx", invariant=[f"len(common_arguments) == {B_PLUG} + 2 * idx"] + prefix("common_arguments")
                    + sets("common_arguments", f"len({S}set_properties)") + plugs("common_arguments", "idx") + FRAME)},
 ))
+
+
+# ---------------------------------------------------------------------------------------------------------------
+# fix_string: the string goes through the SAME `fix` entry point as a file -- it is spooled character for character (no newline
+# translation) into a temporary file, `main([... "fix", <that file>])` runs, the file is read back character for character, and
+# the temporary file is gone afterwards on every exit (C10: nothing is left behind).
+MAINK = "pymarkdown/main.py::PyMarkdownLint.main"
+TMP = Assumed("tempfile.NamedTemporaryFile[spool of fix_string]", params=["mode", "suffix", "encoding", "newline", "delete"], returns="TempFile",
+              fresh_result=True, raises=[Raises("OSError")],
+              requires=["newline == ''", "encoding == 'utf-8'", "mode == 'wt'", "delete == False"],
+              ensures=["result.name not in g_files", "len(result.name) > 0"], effects=["g_files.add(result.name)", "g_spool = ''"],
+              why="creates a new, uniquely named file; with newline='' what is written is stored character for character")
+TWRITE = Assumed("TempFile.write[spool of fix_string]", params=["text"], pure=True, raises=[Raises("OSError")], effects=["g_spool = text"],
+                 why="text-mode write with newline='': the file holds exactly the characters written")
+OPEN_RAW = Assumed("builtins.open[read back of fix_string]", params=["file", "mode", "encoding", "newline"], returns="TextFile", fresh_result=True,
+                   pure=True, raises=[Raises("OSError")], requires=["newline == ''", "encoding == 'utf-8'", "mode == 'rt'"],
+                   effects=["g_readback = file"],
+                   why="open(..., newline=''): read() returns the characters of the file without newline translation")
+FREAD = Assumed("TextFile.read", params=[], returns="str", pure=True, raises=[Raises("OSError"), Raises("UnicodeError")], why="the whole text of the open file")
+LINT = Assumed("pymarkdown/main.py::PyMarkdownLint[construct]", returns="PyMarkdownLint", fresh_result=True, pure=True, why="constructs the application object (no I/O)")
+LMAIN = Assumed(MAINK + "[as called by the API]", params=["direct_args"], modifies=["*"], raises=[Raises("SystemExit", code="g_code", effects=["g_main.append((old(direct_args[len(direct_args) - 2]), old(direct_args[len(direct_args) - 1])))"])], ensures=["False"],
+                ghost={"g_code": "int"}, xensures={"BaseException": ["forall_val(lambda x: (x in g_files) == old(x in g_files))"]},
+                why="PyMarkdownLint.main never returns and leaves only by SystemExit (proved under C18); it removes every temporary file it creates "
+                    "(C10/C15); ghost g_main records the last two arguments (sub-command, path) as they were at the call")
+PRES = Assumed("_ApiPresentation[construct]", returns="_ApiPresentation", fresh_result=True, pure=True, why="collects the output of the run")
+HFR = Assumed(API + "__handle_fix_results", params=["return_code", "this_presentation"], returns="PyMarkdownFixResult", fresh_result=True, pure=True,
+              raises=[Raises("PyMarkdownApiException"), Raises("AssertionError")], why="maps the exit code to a result object or an API exception")
+ISFILE = Assumed("os.path.isfile", params=["path"], returns="bool", pure=True, ensures=["result == (path in g_files)"],
+                 why="for a path created by this call: it exists iff it has not been removed")
+OSREMOVE = Assumed("os.remove[spool]", params=["path"], pure=True, effects=["g_files.discard(path)"],
+                  why="removes the file; removing a file this very call created and closed is assumed to succeed")
+VERIFY = Assumed(API + "__verify_string_argument_not_empty", params=["argument_name", "string_to_validate"], pure=True,
+                 raises=[Raises("PyMarkdownApiArgumentException")], why="rejects an empty / all-whitespace string")
+_R["$fields"].types.update({"TempFile.name": "str", "PyMarkdownFixResult.files_fixed": "List[str]"})
+register(Contract(
+    key=API + "fix_string", properties=["C16", "C10"],
+    ghost={"g_files": "Set[str]", "g_spool": "str", "g_main": "List[Any]", "g_readback": "str", "g_code": "int"},
+    calls={"tempfile.NamedTemporaryFile": TMP, "temp_file.write": TWRITE, "open": OPEN_RAW, "fixed_file.read": FREAD, "PyMarkdownLint": LINT,
+           "scanner_instance.main": LMAIN, "_ApiPresentation": PRES, "self.__handle_fix_results": HFR, "os.path.isfile": ISFILE, "os.remove": OSREMOVE,
+           "self.__verify_string_argument_not_empty": VERIFY, "self.__build_common_arguments": API + "__build_common_arguments",
+           "open.__exit__": Assumed("file.__exit__", pure=True, why="close"), "tempfile.NamedTemporaryFile.__exit__": Assumed("tmp.__exit__", pure=True, why="close")},
+    requires=["len(g_main) == 0"],
+    ensures=[
+        # exactly the given characters were spooled, `fix <spool file>` ran once through the common entry point, and the text handed
+        # back is read from that same file
+        "g_spool is string_to_scan", "len(g_main) == 1", "g_main[0][0] == 'fix'", "g_main[0][1] is g_readback", "len(g_readback) > 0",
+        "forall_val(lambda x: (x in g_files) == old(x in g_files))",
+    ],
+    xensures={"BaseException": ["forall_val(lambda x: (x in g_files) == old(x in g_files))"]},
+    raises=[Raises("PyMarkdownApiException"), Raises("PyMarkdownApiArgumentException"), Raises("OSError"), Raises("UnicodeError"), Raises("AssertionError")],
+    modifies=["*", "g_files.$dict", "g_main.$list"],
+))
